@@ -125,22 +125,28 @@ def rule_mirror(model):
     tp, tm = m.globals.get('tplus'), m.globals.get('tminus')
     if not tp or not tm:
         raise AnalysisError('tplus/tminus not found')
-    sp, sm = norm(tp[0]), norm(tm[0])
-    r.instance('TreeTag:<module>', f'tplus = {sp}')
-    r.instance('TreeTag:<module>', f'tminus = {sm}')
-
-    def swap(s):
-        # tbl[:ord('X')] + b'Y' + tbl[ord('X') + 1:]
-        import re
-        mm = re.fullmatch(r"tbl\[:ord\('(.)'\)\] \+ b'(.)' \+ "
-                          r"tbl\[ord\('(.)'\) \+ 1:\]", s)
-        if not mm or mm.group(1) != mm.group(3):
-            return None
-        return (mm.group(1), mm.group(2))
-    a, b = swap(sp), swap(sm)
-    if a is None or b is None or a != (b[1], b[0]):
-        r.finding('TreeTag:<module>', f'tplus {a} / tminus {b}', 'the two '
-                  'translation tables are not inverse to each other',
+    from .. import constfold
+    try:
+        vp = constfold.fold(tp[-1], m.globals)
+        vm = constfold.fold(tm[-1], m.globals)
+    except constfold.NotConstant as exc:
+        raise AnalysisError(f'tplus/tminus are not constant tables ({exc})')
+    if not (isinstance(vp, (bytes, bytearray)) and len(vp) == 256 and
+            isinstance(vm, (bytes, bytearray)) and len(vm) == 256):
+        raise AnalysisError('tplus/tminus are not 256-byte tables')
+    alphabet = (b'ABCDEFGHIJKLMNOPQRSTUVWXYZabcdefghijklmnopqrstuvwxyz'
+                b'0123456789+/=')
+    changed_p = {chr(i): chr(vp[i]) for i in range(256) if vp[i] != i}
+    changed_m = {chr(i): chr(vm[i]) for i in range(256) if vm[i] != i}
+    r.instance('TreeTag:<module>', f'tplus rewrites {changed_p}')
+    r.instance('TreeTag:<module>', f'tminus rewrites {changed_m}')
+    broken = [chr(c) for c in alphabet if vm[vp[c]] != c]
+    if broken or vp[ord('+')] == ord('+'):
+        r.finding('TreeTag:<module>', f'tplus {changed_p} / tminus '
+                  f'{changed_m}', 'the two '
+                  'translation tables are not inverse to each other'
+                  + (f' (characters {broken} of the base64 alphabet do not '
+                     'survive)' if broken else " ('+' is left as it is)"),
                   ctx=m)
     co = model.func('TreeTag', 'compress')
     de = model.func('TreeTag', 'decompress')
@@ -354,6 +360,163 @@ def rule_cleanup_loop(model):
     return r
 
 
+HOLE = '\x00'
+
+
+class _LinkState(BaseState):
+    def __init__(self, env=None):
+        self.env = dict(env or {})
+
+    def key(self):
+        return tuple(sorted(self.env.items()))
+
+    def copy(self):
+        n = _LinkState(self.env)
+        n.trace = self.trace
+        return n
+
+
+class _LinkDomain(Domain):
+    """Partial evaluation of string building: a value is a str in which
+    the character HOLE stands for run-time text.  The flag `flagvar` (is
+    the node currently expanded?) is fixed per run."""
+
+    def __init__(self, flagvar, flag):
+        self.flagvar = flagvar
+        self.flag = flag
+        self.texts = set()
+
+    def truth(self, e):
+        if isinstance(e, ast.UnaryOp) and isinstance(e.op, ast.Not):
+            v = self.truth(e.operand)
+            return None if v is None else not v
+        if isinstance(e, ast.Name) and e.id == self.flagvar:
+            return self.flag
+        return None
+
+    def branch(self, test, st):
+        self.note(test, st)
+        v = self.truth(test)
+        if v is None:
+            return [(True, st), (False, st)]
+        return [(v, st)]
+
+    def ev(self, e, st):
+        if isinstance(e, ast.Constant):
+            return e.value if isinstance(e.value, str) else HOLE
+        if isinstance(e, ast.Name):
+            return st.env.get(e.id, HOLE)
+        if isinstance(e, ast.IfExp):
+            v = self.truth(e.test)
+            if v is True:
+                return self.ev(e.body, st)
+            if v is False:
+                return self.ev(e.orelse, st)
+            a, b = self.ev(e.body, st), self.ev(e.orelse, st)
+            return a if a == b else HOLE
+        if isinstance(e, ast.BoolOp):
+            vals = [self.ev(v, st) for v in e.values]
+            return vals[0] if len(set(vals)) == 1 else HOLE
+        if isinstance(e, ast.BinOp) and isinstance(e.op, ast.Add):
+            return self.ev(e.left, st) + self.ev(e.right, st)
+        if isinstance(e, ast.BinOp) and isinstance(e.op, ast.Mod):
+            t = self.ev(e.left, st)
+            args = e.right.elts if isinstance(e.right, ast.Tuple) \
+                else [e.right]
+            vals = [self.ev(a, st) for a in args]
+            out, i, n = '', 0, 0
+            while i < len(t):
+                if t[i] == '%' and i + 1 < len(t):
+                    if t[i + 1] == '%':
+                        out += '%'
+                    elif t[i + 1] == '(':
+                        j = t.find(')', i)
+                        out += HOLE
+                        i = (j + 1) if j > 0 else i + 1
+                    else:
+                        out += vals[n] if n < len(vals) else HOLE
+                        n += 1
+                    i += 2
+                else:
+                    out += t[i]
+                    i += 1
+            return out
+        if isinstance(e, ast.JoinedStr):
+            out = ''
+            for v in e.values:
+                out += v.value if isinstance(v, ast.Constant) \
+                    else self.ev(v.value, st)
+            return out
+        if isinstance(e, ast.Call) and isinstance(e.func, ast.Attribute) \
+                and e.func.attr == 'format':
+            t = self.ev(e.func.value, st)
+            vals = [self.ev(a, st) for a in e.args]
+            kw = {k.arg: self.ev(k.value, st) for k in e.keywords if k.arg}
+            out, n = '', 0
+            import re as _re
+            pos = 0
+            for mm in _re.finditer(r'\{([^{}]*)\}', t):
+                out += t[pos:mm.start()]
+                name = mm.group(1).split(':')[0].split('!')[0]
+                if name == '':
+                    out += vals[n] if n < len(vals) else HOLE
+                    n += 1
+                elif name.isdigit():
+                    out += vals[int(name)] if int(name) < len(vals) \
+                        else HOLE
+                else:
+                    out += kw.get(name, HOLE)
+                pos = mm.end()
+            return out + t[pos:]
+        if isinstance(e, ast.Call) and isinstance(e.func, ast.Attribute) \
+                and e.func.attr == 'join' and len(e.args) == 1 and \
+                isinstance(e.args[0], (ast.Tuple, ast.List)):
+            sep = self.ev(e.func.value, st)
+            return sep.join(self.ev(x, st) for x in e.args[0].elts)
+        return HOLE
+
+    def note(self, node, st):
+        for c in ast.walk(node):
+            if isinstance(c, (ast.BinOp, ast.JoinedStr, ast.Call,
+                              ast.Constant, ast.Name)):
+                t = self.ev(c, st)
+                if 'tree-' in t:
+                    self.texts.add(t)
+
+    def raises(self, node, st):
+        return []
+
+    def effects(self, stmt, st):
+        self.note(stmt, st)
+        if isinstance(stmt, ast.Assign) and len(stmt.targets) == 1 and \
+                isinstance(stmt.targets[0], ast.Name):
+            v = self.ev(stmt.value, st)
+            st = st.copy()
+            if v == HOLE:
+                st.env.pop(stmt.targets[0].id, None)
+            else:
+                st.env[stmt.targets[0].id] = v
+        elif isinstance(stmt, ast.Assign):
+            st = st.copy()
+            for t in stmt.targets:
+                for x in ast.walk(t):
+                    if isinstance(x, ast.Name) and isinstance(
+                            x.ctx, ast.Store):
+                        st.env.pop(x.id, None)
+        elif isinstance(stmt, ast.AugAssign) and isinstance(
+                stmt.target, ast.Name):
+            st = st.copy()
+            st.env.pop(stmt.target.id, None)
+        return st
+
+    def for_target(self, node, st):
+        ns = st.copy()
+        for x in ast.walk(node.target):
+            if isinstance(x, ast.Name):
+                ns.env.pop(x.id, None)
+        return ns
+
+
 def rule_link_agreement(model):
     r = RuleResult('C20.R5', 'the request parameters the tag writes into '
                    'its links / cookie are the ones it reads back, with the '
@@ -398,43 +561,24 @@ def rule_link_agreement(model):
     # parameter, the other one the expand parameter
     wrote = {}
     import re as _re
-    # a link built once from a letter chosen per branch:  'tree-%s=' % kind
-    generic = any(isinstance(c, ast.Constant) and isinstance(c.value, str)
-                  and _re.search(r'tree-(%s|\{)', c.value)
-                  for c in own_nodes(wr.node)) or any(
-        isinstance(c, ast.JoinedStr) and any(
-            isinstance(v, ast.Constant) and str(v.value).endswith('tree-')
-            for v in c.values) for c in own_nodes(wr.node))
-
-    def letters(branch):
-        out = []
-        for c in ast.walk(ast.Module(body=branch, type_ignores=[])):
-            if isinstance(c, ast.Assign):
-                vals = c.value.elts if isinstance(c.value, ast.Tuple) \
-                    else [c.value]
-                for v in vals:
-                    if isinstance(v, ast.Constant) and \
-                            isinstance(v.value, str) and len(v.value) == 1 \
-                            and v.value.isalpha():
-                        out.append(v.value)
-        return out
-    for n in own_nodes(wr.node):
-        if isinstance(n, ast.If) and norm(n.test) == 'exp':
-            for branch, expanded in ((n.body, True), (n.orelse, False)):
-                for c in ast.walk(ast.Module(body=branch, type_ignores=[])):
-                    if isinstance(c, ast.Constant) and \
-                            isinstance(c.value, str) and 'tree-' in c.value \
-                            and '=%s' in c.value:
-                        for k in _re.findall(r'(tree-[a-z])=', c.value):
-                            wrote[k] = expanded
-                if generic:
-                    for ch in letters(branch):
-                        wrote['tree-' + ch] = expanded
-        elif isinstance(n, ast.IfExp) and norm(n.test) == 'exp' and generic:
-            for v, expanded in ((n.body, True), (n.orelse, False)):
-                if isinstance(v, ast.Constant) and isinstance(v.value, str) \
-                        and len(v.value) == 1:
-                    wrote['tree-' + v.value] = expanded
+    # the links are built by string formatting; evaluate every formatted
+    # string of the row renderer over partially known strings (unknown
+    # parts are holes), once for an expanded and once for a collapsed node
+    for expanded in (True, False):
+        dom = _LinkDomain('exp', expanded)
+        Interp(dom, 200000).run(wr.node, _LinkState())
+        for text in sorted(dom.texts):
+            for k in _re.findall(r'(tree-[a-z])=', text):
+                if k in wrote and wrote[k] != expanded:
+                    wrote[k] = None          # written in both states
+                else:
+                    wrote.setdefault(k, expanded)
+    both = sorted(k for k, v in wrote.items() if v is None)
+    for k in both:
+        r.finding(wr.where, f'link parameter {k}', f'{k}= is written for '
+                  'expanded and for collapsed nodes alike: clicking does '
+                  'not toggle the node', node=wr.node, ctx=wr)
+        del wrote[k]
     r.instance(wr.where, f'writes (param -> node currently expanded) '
                f'{wrote}')
     for k, expanded in wrote.items():
@@ -629,7 +773,9 @@ def rule_path_stack(model):
                       'when the id path does not contain the parent\'s id '
                       f'exactly once (depth {d:+d})', node=n, ctx=wr)
         # the same list object is handed down
+        # ... positionally or by keyword, into the same parameter
         names = [norm(a) for a in n.args]
+        names += [norm(k.value) for k in n.keywords if k.arg == pname]
         if pname not in names:
             r.finding(wr.where, n, 'the recursive call does not hand the '
                       'id path down', node=n, ctx=wr)
